@@ -351,6 +351,8 @@ def generate(rng: Prng, tier: str) -> dict:
         if wide_ids and api == "Tree.from_swc":
             opts["reset_index"] = True
         step = {"source": source, "api": api, "opts": opts, "stream": gen_stream(sp, faulting)}
+        if rng.stream(f"detect{s}").chance(0.3):
+            step["detect"] = True  # encoding="detect" whenever the stored bytes turn out to be pure ASCII
         if faulting and (mode == "eio_only" or fp.chance(0.1)):
             if s == 0 or fp.chance(0.5):
                 step["eio"] = round(fp.random(), 6) if fp.chance(0.85) else fp.choice([0.0, 1.0])
@@ -605,6 +607,11 @@ def execute(program: dict) -> dict:
                 continue
             plan = StreamPlan.from_json(plan_d)
             kwargs = dict(opts)
+            if step.get("detect") and source in ("path", "bytes") and enc in ("utf-8", "latin-1") and data.isascii():
+                # a pure-ASCII file read with the encoding left to detection: there is nothing to get wrong - every
+                # candidate encoding agrees on these bytes
+                kwargs["encoding"] = "detect"
+                world.probe("c02.ascii_text_read_with_encoding_detect")
             if source == "path":
                 world.read_plans["a/file.swc"] = plan
                 src = world.path("a/file.swc") if (si + len(data)) % 3 else pathlib.Path(world.path("a/file.swc"))
